@@ -152,7 +152,7 @@ class Prover(object):
 
     def _atom_nonneg(self, atom, facts, depth):
         k = atom.kind
-        if k in ("term", "elt"):
+        if k in ("term", "elt", "let"):
             return bool(self.base_nonneg(atom))
         if k == "min":
             self.used_rules.add("R5")
